@@ -136,7 +136,11 @@ fn run_child(check: &dyn Check, a: &Args, shard: usize, nshards: usize, dir: &Pa
             libc::setrlimit(libc::RLIMIT_AS, &lim);
         }
     }
-    // watchdog for polls that never return (a busy loop inside a future of the subject)
+    // watchdog for polls and calls that never return (a busy loop inside the subject); calls
+    // are only watched in native runs (under Miri one call may legitimately take minutes)
+    if !cfg!(miri) && a.mode.is_empty() {
+        vlab::guard::WATCH_CALLS.store(true, std::sync::atomic::Ordering::Relaxed);
+    }
     {
         let hang_path = dir.join(format!("shard-{}.hang", shard));
         std::thread::spawn(move || {
@@ -311,7 +315,7 @@ fn main() {
                     let cur_case = std::fs::read(tmp.join(format!("shard-{}.cur", shard))).ok().filter(|b| b.len() == 8).map(|b| u64::from_le_bytes(b[..8].try_into().unwrap()));
                     merged.violation(
                         format!("poll-never-returns:{}", task.trim_end_matches(char::is_numeric)),
-                        format!("a single poll of task `{}` did not return within 20 s (busy loop inside the future, it never yields) while running case {:?}", task, cur_case),
+                        format!("a single poll of task / call `{}` did not return within 20 s (busy loop inside the subject, it never yields or returns) while running case {:?}", task, cur_case),
                         json!({"property": a.id, "seed": a.seed, "case": cur_case, "tier": a.tier.name(), "task": task}),
                     );
                 } else {
